@@ -276,6 +276,13 @@ def h_gls(cx, models, xs, ylay, priors=None, method=None, key_order=None, correl
     if cx.mode == 'sym':
         calls = rec.get('cdf', [])
         cx.expect(len(calls) >= 1 and calls[0][0] == 'chi2cdf' and calls[0][2] == out.dof, 'p-value from chi2.cdf(chisquare, dof)')
+        if correlated:
+            # Hotelling t^2: 1 - F.cdf((n - dof) / (dof (n - 1)) chisquare, dof, n - dof) with n the SMALLEST sample count among the data points
+            nmin = min(o.N for k in keys for o in yobs[k])
+            fc = [c_ for c_ in calls if c_[0] == 'fcdf']
+            if cx.expect(len(fc) == 1 and hasattr(out, 't2_p_value'), 't2_p_value from one f.cdf call'):
+                cx.expect(fc[0][2] == out.dof and fc[0][3] == nmin - out.dof, 'f.cdf degrees of freedom (dof, n_min - dof)', str(fc[0][2:]))
+                cx.prove_eq(fc[0][1] * (out.dof * (nmin - 1)), (nmin - out.dof) * out.chisquare, 'f.cdf argument = (n_min - dof) / (dof (n_min - 1)) chisquare')
         if calls:
             cx.prove_eq(calls[0][1], out.chisquare, 'p-value argument = chisquare')
         cx.expect(isinstance(out.p_value, SV), 'p_value = 1 - cdf')
@@ -368,6 +375,7 @@ def jobs(tier, seed):
     S('line', [1.0, 2.0, 4.0], [E, E, F_], num_grad=True)
     # numerical differentiation combined with the other options (each combination has its own code path for the error propagation)
     S('line', [1.0, 2.0, 4.0], [E, E, E], num_grad=True, correlated=True)
+    S('line', [1.0, 2.0, 4.0], [{'e|r1': [1, 2, 3, 4, 5, 6, 7]}, E, {'e|r1': [1, 2, 3, 4, 5, 6]}], correlated=True)      # data points with different sample counts (Hotelling t^2 uses the smallest)
     S('line', [1.0, 2.0, 4.0], [E, E, E], num_grad=True, correlated='estimated')
     S('line', [1.0, 2.0, 3.0], [E, F_, E], num_grad=True, priors={'0': ('obs', F_)})
     S('line', [1.0, 2.0, 3.0], [E, E, E], num_grad=True, correlated=True, priors={'1': ('obs', F_)}, method='migrad')
